@@ -125,16 +125,7 @@ def check_order(label, method, cfg, kind, mname, model, h, st, sname):
             rec["bad"] = bad[:3]
             fail("inexact/" + label, rec)
     else:
-        p = kind[1]
-        bad = []
-        for i in range(len(DTS) - 1):
-            if errs[i + 1] > 1e-10 and hn * DTS[i] <= 0.5 and errs[i] < 0.3:
-                ratio = errs[i] / errs[i + 1]
-                if ratio < 2 ** (p + 1 - 0.7):
-                    bad.append(("ratio", DTS[i], ratio))
-        for dt, e in zip(DTS, errs):
-            if hn * dt <= 0.5 and not e <= max(1e-9, 10 * (hn * dt) ** (p + 1)):
-                bad.append(("size", dt, e))
+        bad = order_verdict(DTS, errs, kind[1], hn)
         if bad:
             rec["bad"] = bad[:4]
             fail("order/" + label, rec)
@@ -615,7 +606,7 @@ def check_reuse(mname, model, h, st, sname, table):
         records.append(rec)
         bad = moved > 1e-12 or bool(changed) or errs[2] > 1.0001 * errs[0] + 1e-12
         if kind[0] == "order" and errs[1] > 1e-10 and hn * 0.04 <= 0.5:
-            bad = bad or (errs[0] / errs[1] < 2 ** (kind[1] + 1 - 0.7))
+            bad = bad or (errs[0] / errs[1] < 2 ** (kind[1] + 0.3))      # at least the advertised order (one-step error: p+1); never an upper bound
         if bad:
             fail("reuse/" + label.split("/")[0], rec)
 
